@@ -71,6 +71,11 @@ type SwapService struct {
 	sync.RWMutex
 
 	lastMsgLog map[string]string
+
+	// reservedChannels holds the channels of the stored, unfinished swaps
+	// (swap id -> short channel id) from Start until RecoverSwaps has locked
+	// them in again.
+	reservedChannels map[string]string
 }
 
 func NewSwapService(services *SwapServices) *SwapService {
@@ -81,7 +86,28 @@ func NewSwapService(services *SwapServices) *SwapService {
 		LiquidEnabled:  services.liquidEnabled,
 		BitcoinEnabled: services.bitcoinEnabled,
 		lastMsgLog:     map[string]string{},
+
+		reservedChannels: map[string]string{},
 	}
+}
+
+// ReserveStoredChannels keeps the channels of the stored, unfinished swaps
+// taken until RecoverSwaps has locked these swaps in again. It is to be called
+// before Start: from Start on the message handler is live, and a request that
+// got such a channel first would keep its swap from being restored.
+func (s *SwapService) ReserveStoredChannels() error {
+	swaps, err := s.swapServices.swapStore.ListAll()
+	if err != nil {
+		return err
+	}
+	s.Lock()
+	defer s.Unlock()
+	for _, sw := range swaps {
+		if !sw.IsFinished() && sw.Data != nil && sw.Data.GetScid() != "" {
+			s.reservedChannels[sw.SwapId.String()] = sw.Data.GetScid()
+		}
+	}
+	return nil
 }
 
 // Start adds callback to the messenger, txwatcher services and lightning client
@@ -163,6 +189,9 @@ func (s *SwapService) RecoverSwaps() error {
 	}
 	log.Debugf("Waiting for all pending swaps to recover.")
 	wg.Wait()
+	s.Lock()
+	s.reservedChannels = map[string]string{}
+	s.Unlock()
 	return nil
 }
 
@@ -1081,6 +1110,13 @@ func (s *SwapService) lockSwap(swapId, channelId string, fsm *SwapStateMachine) 
 			return ActiveSwapError{channelId: channelId, swapId: id}
 		}
 	}
+	// ... nor on the channel of a stored swap that is still to be restored.
+	for id, scid := range s.reservedChannels {
+		if id != swapId && lightning.Scid(scid).ClnStyle() == lightning.Scid(channelId).ClnStyle() {
+			return ActiveSwapError{channelId: channelId, swapId: id}
+		}
+	}
+	delete(s.reservedChannels, swapId)
 
 	// Add active swap
 	s.activeSwaps[swapId] = fsm
